@@ -8,6 +8,9 @@ CLAIMED = {
              note=ENGINE_NOTE, technique='source-level symbolic execution of the engine (rs2json AST + z3 bit-vectors, extent storage model), native replay gate', ref='7/C01'),
  'C03': dict(text='Same exploration as C01 with the batch-read oracle: at most 2000 entries, total payload within the byte budget unless exactly one entry, and progress whenever an unconsumed entry exists; budgets fully symbolic including 0 and usize::MAX.',
              note=ENGINE_NOTE, technique='source-level symbolic execution of batch_read_for_topic (z3 bit-vectors), native replay gate', ref='7/C03'),
+ 'C14': dict(text='Bounded symbolic model checking of the real sanitize_namespace and WalPathManager::{with_data_dir, for_key, default}: the key is a vector of arbitrary Unicode scalar values of every length 0..8 (quick) / 0..24 (thorough); z3 shows the pushed directory component is non-empty, free of separators/NUL and neither "." nor ".."; counterexamples are replayed by building a real instance and listing where its files appear.',
+             note='Trusted: AST dump, interpreter, models of PathBuf::push, chars/map/collect, is_ascii_alphanumeric, trim_matches, format!("ns_{:x}"); differential-tested against the real builder on concrete keys on every run. Longer keys are outside the claim.',
+             technique='source-level symbolic execution (z3, strings as code-point vectors, If-merged per-character closure), native replay gate', ref='7/C14'),
  'C15': dict(text='Same exploration with the count oracle: after every operation get_topic_entry_count equals appended minus consumed entries, decided by z3 on every path class.',
              note=ENGINE_NOTE, technique='source-level symbolic execution (z3), native replay gate', ref='7/C15'),
  'C25': dict(text='Bounded symbolic model checking of the real wal_key/parse_wal_key source: for every topic length 0..12 (quick) / 0..40 (thorough) of arbitrary Unicode scalar values and every u64 segment, z3 shows the round trip returns the same pair; every counterexample is replayed through the real functions before it is reported.',
